@@ -672,6 +672,9 @@ func (x *swExec) do(a swAct) ([]string, bool) {
 			}
 			break
 		}
+		e.mu.Lock()
+		e.faultAt = -1 // the fault position was past the calls the restore made
+		e.mu.Unlock()
 		sync := a.Ok || a.K == "rfault"
 		evs = append(evs, fmt.Sprintf("ERestart %s", cqBool(sync)))
 		x.live = true
